@@ -33,43 +33,51 @@ def instance_text(c, idx, theorems):
 
 # instantiated theorem templates ("@" = instance name)
 TH_C01 = 'Definition C01_@ := C01_maximal_munch d_@ g_@ V_@ D_@ dfa_ok_@ sim_ok_@.'
+TH_C01S = 'Definition C01s_@ := C01_stream_eq_spec d_@ g_@ V_@ R_@ D_@ dfa_ok_@ sim_ok_@ exact_ok_@.'
 TH_C02 = 'Definition C02_@ := C02_error_span d_@ g_@ V_@ R_@ D_@ dfa_ok_@ sim_ok_@ exact_ok_@.'
 TH_C03 = 'Definition C03_@ := C03_tiling d_@ g_@ V_@ R_@ D_@ dfa_ok_@ sim_ok_@ exact_ok_@.'
 
 
+def _kernel_shard(args):
+    """One coqc run over several instances (start-up of coqc dominates a single small instance).
+    On failure the instances of the shard are compiled one by one to name the failing one."""
+    k, items, theorems, d = args
+    texts = [(i, c, instance_text(c, i, theorems)) for i, c in items]
+    p = os.path.join(d, 'Shard_%d.v' % k)
+    open(p, 'w').write(HDR + '\n'.join(t[0] for _, _, t in texts))
+    r = sh(['timeout', '1200', 'coqc', '-Q', COQ, 'LogosV', p], cwd=d, check=False)
+    if r.returncode == 0:
+        return [(c.id or c.name, (True, '', t[1])) for i, c, t in texts]
+    out = []
+    for i, c, t in texts:
+        q = os.path.join(d, 'Inst_%d.v' % i)
+        open(q, 'w').write(HDR + t[0])
+        r1 = sh(['timeout', '600', 'coqc', '-Q', COQ, 'LogosV', q], cwd=d, check=False)
+        if r1.returncode == 0:
+            out.append((c.id or c.name, (True, '', t[1])))
+        else:
+            m = re.search(r'Lemma (\w+?)_i\d+', _failing_lemma(r1.stdout, t[0]))
+            out.append((c.id or c.name, (False, (m.group(1) if m else 'coqc') + ': ' + r1.stdout[-300:], t[1])))
+    return out
+
+
 def kernel_certs(caps, theorems, tag):
-    """Compile instance files in shards. Returns {cap.id: (ok, message)}."""
-    d = cache_dir('instances', tag)
-    for f in glob.glob(os.path.join(d, '*')):
-        os.remove(f)
-    nsh = min(NPROC, max(1, len(caps)))
+    """Kernel evaluation of the certificates + instantiated theorems, sharded over processes.
+    Returns {cap.id: (ok, message, stats)}."""
+    import shutil
+    d = cache_dir('instances', '%s-%d' % (tag, os.getpid()))
+    nsh = max(1, min(NPROC, len(caps)))
     shards = [[] for _ in range(nsh)]
-    # balance by size
-    order = sorted(enumerate(caps), key=lambda ic: -len(ic[1].dfa['states']))
     load = [0] * nsh
-    for i, c in order:
+    for i, c in sorted(enumerate(caps), key=lambda ic: -len(ic[1].dfa['states'])):
         k = load.index(min(load))
-        shards[k].append((i, c)); load[k] += len(c.dfa['states']) + 5
-    stats = {}
-
-    def one(k):
-        res = {}
-        for i, c in shards[k]:
-            txt, st = instance_text(c, i, theorems)
-            p = os.path.join(d, 'Inst_%d.v' % i)
-            open(p, 'w').write(HDR + txt)
-            r = sh(['timeout', '600', 'coqc', '-Q', COQ, 'LogosV', p], cwd=d, check=False)
-            if r.returncode == 0:
-                res[c.id or c.name] = (True, '', st)
-            else:
-                m = re.search(r'Lemma (\w+?)_i\d+', _failing_lemma(r.stdout, txt))
-                res[c.id or c.name] = (False, (m.group(1) if m else 'coqc') + ': ' + r.stdout[-300:], st)
-        return res
-
+        shards[k].append((i, c)); load[k] += len(c.dfa['states']) + 20
     out = {}
-    with cf.ThreadPoolExecutor(max_workers=nsh) as ex:
-        for res in ex.map(one, range(nsh)):
-            out.update(res)
+    with cf.ProcessPoolExecutor(max_workers=nsh) as ex:
+        for res in ex.map(_kernel_shard, [(k, shards[k], theorems, d) for k in range(nsh) if shards[k]], chunksize=1):
+            for key, v in res:
+                out[key] = v
+    shutil.rmtree(d, ignore_errors=True)
     return out
 
 
